@@ -77,6 +77,11 @@ class _AliasTracker:
         Returns True if vec is the *only* owner of tuple_id.
         Otherwise raises AliasError.
         """
+        if tuple_id == id(()):
+            # every empty vector holds the one interned empty tuple: there is no element
+            # a write could leak through, so zero-length storage is never "shared"
+            return True
+
         refs = self._registry.get(tuple_id)
         if not refs:
             return True  # nothing registered → writable
